@@ -313,9 +313,9 @@ def rule_W7(ctx: Ctx) -> None:
     repeats) decode then encode gives the ids back, for the list form and for the joined string form"""
     from sa.fold import EvalRaised, Evaluator, Obj, Unknown
 
-    vocab = ["<A>", "<B>", "(0,0)", "(0,1)", "<C>"]
+    vocab = ["<A>", "<B>", "(0,0)", "(0,1)", "<C>", "(", ",", ")", "0", "1"]   # unique-token coordinates and the separate tokens of the indexed form
     t2i = {t: i for i, t in enumerate(vocab)}
-    seqs = [[], [0], [4], [2, 0, 1], [1, 1, 3], [3, 2, 2, 4, 0]]
+    seqs = [[], [0], [4], [2, 0, 1], [1, 1, 3], [3, 2, 2, 4, 0], [5, 8, 6, 9, 7], [0, 5, 9, 6, 8, 7, 1, 5, 8, 6, 8, 7], [5, 7], [7, 5]]
     for owner, static in ((f"{MT}.MazeTokenizerModular", True), (f"{MT}.MazeTokenizer", False)):
         enc = ctx.index.func(f"{owner}.encode")
         dec = ctx.index.func(f"{owner}.decode")
@@ -333,7 +333,9 @@ def rule_W7(ctx: Ctx) -> None:
                     env[p_] = Evaluator().ev(d_, {})
             for p_, a_ in zip(ps, args):
                 env[p_] = a_
-            return Evaluator().run_body(X.body_wo_doc(fn.node), env)
+            from sa.absobj import make_name_hook
+
+            return Evaluator({"__name__": make_name_hook(ctx.index, fn.module, lambda: {})}).run_body(X.body_wo_doc(fn.node), env)
         bad, unk = [], []
         for ids in seqs:
             for joined in (False, True):
@@ -350,6 +352,56 @@ def rule_W7(ctx: Ctx) -> None:
         ctx.judge(enc, False if bad else None if unk else True, {"id_sequences": len(seqs), "forms": ["list", "joined string"], "deviations": bad[:3], "undecided": unk[:2]},
                   "encode(decode(ids, joined_tokens=J)) == ids for every id sequence, the empty one included, in the list form and in the joined-string form",
                   "encode and decode are not mutual inverses (e.g. the empty sequence joined to '' no longer encodes to [])")
+
+
+def rule_W8(ctx: Ctx) -> None:
+    """clear_cache forgets every cached vocabulary property, whichever of them had been computed (abstract evaluation over all subsets of computed
+    properties): after max_grid_size changes, no stale token list / map survives"""
+    from sa.fold import EvalRaised, Evaluator, Obj, Unknown
+
+    f = ctx.index.func(f"{MT}.MazeTokenizer.clear_cache")
+    props = ["p_first", "p_second", "p_third"]
+    bad, unk = [], []
+    for mask in range(8):
+        computed = {p_ for i, p_ in enumerate(props) if mask >> i & 1}
+        state = set(computed)
+
+        def hook(ev, node, env, state=state):
+            d = dotted_of(node.func) or ""
+            if d == "isinstance" and len(node.args) == 2 and X.U(node.args[1]).endswith("cached_property"):
+                return ev.ev(node.args[0], env) == "<cached_property>"
+            if d == "delattr" and len(node.args) == 2:
+                nm = ev.ev(node.args[1], env)
+                if nm not in state:
+                    raise EvalRaised("AttributeError", nm)
+                state.discard(nm)
+                return None
+            if d.endswith(".pop") and X.U(node.func.value).endswith("__dict__") and node.args:
+                nm = ev.ev(node.args[0], env)
+                if nm not in state and len(node.args) < 2:
+                    raise EvalRaised("KeyError", nm)
+                state.discard(nm)
+                return None
+            if d in ("inspect.getmembers", "vars", "dir"):
+                members = {"plain_method": "<function>", **{p_: "<cached_property>" for p_ in props}, "a_property": "<property>"}
+                return list(members.items()) if d == "inspect.getmembers" else (members if d == "vars" else list(members))
+            return NotImplemented
+        cls_obj = Obj("class", {"__dict__": {"plain_method": "<function>", "p_first": "<cached_property>", "a_property": "<property>", "p_second": "<cached_property>",
+                                             "p_third": "<cached_property>"}})
+        me = Obj("self", {"__class__": cls_obj})
+        try:
+            Evaluator({"__call__": hook}).run_body(X.body_wo_doc(f.node), {f.params()[0]: me})
+        except EvalRaised as e:
+            bad.append({"computed_before": sorted(computed), "found": f"raises {e.exc_name}"})
+            continue
+        except Unknown as e:
+            unk.append(str(e)[:140])
+            continue
+        if state:
+            bad.append({"computed_before": sorted(computed), "still_cached_after_clear_cache": sorted(state)})
+    ctx.judge(f, False if bad else None if unk else True, {"subsets_of_computed_properties": 8, "deviations": bad[:3], "undecided": unk[:2]},
+              "clear_cache() leaves no cached property behind, whichever subset of them had been computed, and never raises",
+              "after max_grid_size is changed a stale token list or token-to-id map survives clear_cache(): the map is no longer the inverse of the list, sizes disagree")
 
 
 def rule_W6(ctx: Ctx) -> None:
@@ -454,6 +506,7 @@ RULES = [
     Rule("C14.W3", rule_W3, floor=1, doc="corner-first prefix lemma"),
     Rule("C14.W4", rule_W4, floor=8, doc="codec inverse by construction"),
     Rule("C14.W5", rule_W5, floor=6, doc="error translation, both sides"),
+    Rule("C14.W8", rule_W8, floor=1, doc="clear_cache forgets every cached property (abstract evaluation over all subsets of computed properties)"),
     Rule("C14.W7", rule_W7, floor=2, doc="encode / decode mutual inverses by abstract evaluation on a symbolic vocabulary (list and joined-string forms, empty sequence)"),
     Rule("C14.W6", rule_W6, floor=5, doc="legacy vocabularies"),
 ]
